@@ -10,8 +10,8 @@ build=ok; (go build ./... && cd learn && go build ./...) >/dev/null 2>&1 || buil
 suite=ok
 (go test -vet=off -count=1 ./... 2>&1; cd learn && go test -vet=off -count=1 ./... 2>&1) | grep -E '^(FAIL|--- FAIL|panic)' | cut -c1-160 | head -5 > /tmp/seed/$id-out/$v.suite.txt
 [ -s /tmp/seed/$id-out/$v.suite.txt ] && suite=FAIL
-W=$wt sh $out/demo.sh $wt > /tmp/seed/$id-out/$v.demo-with.txt 2>&1; with=$?
+W=$wt $(head -1 $out/demo.sh | grep -q bash && echo bash || echo sh) $out/demo.sh $wt > /tmp/seed/$id-out/$v.demo-with.txt 2>&1; with=$?
 git checkout -q -- . ; git clean -fdq
-W=$wt sh $out/demo.sh $wt > /tmp/seed/$id-out/$v.demo-without.txt 2>&1; without=$?
+W=$wt $(head -1 $out/demo.sh | grep -q bash && echo bash || echo sh) $out/demo.sh $wt > /tmp/seed/$id-out/$v.demo-without.txt 2>&1; without=$?
 git checkout -q -- . ; git clean -fdq
 echo "SEEDVERIFY $id/$v build=$build suite=$suite demo_with_change_exit=$with demo_without_exit=$without"
